@@ -217,13 +217,14 @@ impl Smp for i16 {
 impl Smp for f32 {
     const NAME: &'static str = "f32";
     fn show(self) -> String { format!("{:08x}", self.to_bits()) }
-    fn random(rng: &mut Rng) -> Self { (rng.f64_unit() * 2.0 - 1.0) as f32 }
+    fn random(rng: &mut Rng) -> Self { let x = (rng.f64_unit() * 2.0 - 1.0) as f32; match rng.below(8) { 0 => x * 8.0, 1 => x * 1000.0, _ => x } }
     fn as_f64(self) -> f64 { self as f64 }
 }
 impl Smp for f64 {
     const NAME: &'static str = "f64";
     fn show(self) -> String { format!("{:016x}", self.to_bits()) }
-    fn random(rng: &mut Rng) -> Self { rng.f64_unit() * 2.0 - 1.0 }
+    // mostly inside the nominal range, one frame in four well outside it (float frames are not confined to [-1, 1])
+    fn random(rng: &mut Rng) -> Self { let x = rng.f64_unit() * 2.0 - 1.0; match rng.below(8) { 0 => x * 8.0, 1 => x * 1000.0, _ => x } }
     fn as_f64(self) -> f64 { self }
 }
 
@@ -288,7 +289,8 @@ fn one_case<S: Smp, const N: usize, W: WindowFn<f64, Output = f64>>(st: &mut Str
                     // one unit of the format, plus the accumulated rounding of the f64 phase (bin steps of 1/(bin-1),
                     // each within an ulp; |d hann/dp| <= pi) scaled by the sample's magnitude
                     let acc = 8.0 * bin as f64 * f64::EPSILON * src[ch].as_f64().abs().max(1.0);
-                    let tol = acc + if S::NAME == "i16" { 1.01 } else if S::NAME == "f32" { 3e-7 } else { 1e-14 };
+                    let mag = src[ch].as_f64().abs().max(1.0);      // float formats: "one unit of the format" is relative to the magnitude
+                    let tol = acc + if S::NAME == "i16" { 1.01 } else if S::NAME == "f32" { 3e-7 * mag } else { 1e-14 * mag };
                     if !((c[j][ch].as_f64() - ideal).abs() <= tol) {
                         st.oracle_fail(&format!("chunk {} frame {} channel {} is not source*window(j/(b-1)) within {:e}", k, j, ch, tol), &short, &format!("{:e}", ideal), &format!("{:e}", c[j][ch].as_f64()));
                     } else { st.oracle_ok(1); }
